@@ -37,6 +37,7 @@ for sid in ids:
                 missed.append(sid)
         finally:
             subprocess.run(["git", "-C", "/repo", "checkout", "--", "."])
+            subprocess.run(["git", "-C", VERIF, "checkout", "--", "evidence"])
     d = meta["detection"]
     print(sid, d.get("exit"), "detected" if d.get("detected") else "MISSED", "input" if d.get("with_failing_input") else "no-input", flush=True)
     json.dump(meta, open(meta_p, "w"), indent=1)
